@@ -35,6 +35,7 @@ type wgOptions struct {
 	Delegation    bool // allow delegated rule files
 	MaxEvents     int
 	Apps          bool
+	TwoKeyPersons bool // some developers are persons holding two keys (d and 20+d)
 }
 
 // genPolicy draws one policy state over developer keys 0..5.
@@ -48,7 +49,9 @@ func genPolicy(rt *rapid.T, opt wgOptions, label string) kit.PolicySpec {
 	devs := rapid.SliceOfNDistinct(rapid.IntRange(0, 5), 2, 5, func(i int) int { return i }).Draw(rt, label+"devs")
 	f := &kit.FileSpec{Signers: []int{wgRootKey}}
 	for _, d := range devs {
-		if opt.Apps && rapid.IntRange(0, 2).Draw(rt, label+"person") == 0 {
+		if opt.TwoKeyPersons && rapid.IntRange(0, 3).Draw(rt, label+"twokey") == 0 {
+			f.Principals = append(f.Principals, kit.PrincipalSpec{Person: fmt.Sprintf("dev%d", d), Keys: []int{d, 20 + d}})
+		} else if opt.Apps && rapid.IntRange(0, 2).Draw(rt, label+"person") == 0 {
 			f.Principals = append(f.Principals, kit.PrincipalSpec{Person: fmt.Sprintf("dev%d", d), Keys: []int{d}, Identities: map[string]string{"github-app": fmt.Sprintf("gh-dev%d", d)}})
 		} else {
 			f.Principals = append(f.Principals, keyPrin(d))
@@ -306,6 +309,18 @@ func (g *wgState) genApproval(rt *rapid.T, classes map[string]bool, ref string, 
 			signers = append(signers, rapid.SampledFrom([]int{0, 1, 2, 3, 4, 5, wgUnknownKey}).Draw(rt, "apkey"))
 		}
 		signers = uniqInts(signers)
+	}
+	// a person holding two keys may sign with both: still one principal
+	for _, p := range kit.AllPrincipals(g.spec()) {
+		if len(p.Keys) == 2 {
+			for _, k := range signers {
+				if k == p.Keys[0] && rapid.Bool().Draw(rt, "bothkeys") {
+					signers = append(signers, p.Keys[1])
+					classes["approval_signed_with_both_keys_of_a_person"] = true
+					break
+				}
+			}
+		}
 	}
 	c := kit.Change{Ref: ref, From: -2, To: tree}
 	kind := rapid.SampledFrom([]string{"auth", "auth", "auth01"}).Draw(rt, "authkind")
